@@ -41,8 +41,12 @@ DT = 1 / 16
 LADDER = (1e-4, 2.5e-5, 6.25e-6, 1.5625e-6)   # central-difference steps, ratio 4
 H1, H2 = LADDER[0], LADDER[1]
 CRITERIA = ("erm", "es", "qcvar", "entropic_loss", "isoelastic", "oce", "mse", "l1")
-FMODES = ("vec", "step", "prev", "mo_vec", "mo_prev")
+FMODES = ("vec", "step", "prev", "mo_vec", "mo_prev", "mo_free_prev", "mo_ww")
 MODELS = ("mlp", "linear")
+# no-transaction-band models: prev_hedge clamped into [centre - width, centre + width], centre and width from
+# trainable layers; "band:<module|functional>:<inverted_output>:<clamped_slope>"
+BANDS = tuple(f"band:{impl}:{mode}:{slope}" for impl in ("module", "functional") for mode in ("mean", "max")
+              for slope in ("0", "0.01"))
 GOLD = 0.6180339887498949
 
 PATH_SETS = {
@@ -127,6 +131,52 @@ def _step_feature():
     return StepLogMoneyness()
 
 
+class ParamFree(torch.nn.Module):
+    """A user module without parameters (smooth in every input)."""
+
+    def forward(self, x):
+        return torch.tanh(x[..., [0]] * 2 + x[..., 1:].sum(-1, keepdim=True))
+
+
+class BandModel(torch.nn.Module):
+    """No-transaction band: the previous hedge clamped into [centre - width, centre + width].  Centre
+    (in (0.2, 0.8)) and width magnitude (in (0.05, 0.2)) come from trainable layers.  A data-determined role per
+    (path, step) cell, r = (step + [log-moneyness > 0]) mod 3, makes every run exercise all branches whatever the
+    weights: r = 0 plain band (the clamp is active at step 0, where prev_hedge = 0 lies below it), r = 1 band
+    widened 20-fold (>= 1: the clamp is inactive), r = 2 width negated (min > max: the only place where the two
+    ``inverted_output`` conventions differ)."""
+
+    def __init__(self, H, impl, mode, slope, T):
+        super().__init__()
+        from pfhedge.nn import Clamp, LeakyClamp
+        self.H, self.impl, self.mode, self.slope, self.T = H, impl, mode, slope, T
+        self.centre = torch.nn.Linear(2, H)
+        self.width = torch.nn.Linear(2, H)
+        if impl == "module":
+            self.clamp = Clamp(inverted_output=mode) if slope == 0 else LeakyClamp(clamped_slope=slope, inverted_output=mode)
+        self.stats = None
+
+    def forward(self, x):
+        import pfhedge.nn.functional as F
+        feat, prev = x[..., :2], x[..., 2:]
+        step = self.T - 1 - torch.round(feat[..., [1]] / DT)
+        role = torch.remainder(step + (feat[..., [0]] > 0).to(step), 3)
+        c = 0.5 + 0.3 * torch.tanh(self.centre(feat))
+        wd = 0.05 + 0.15 * torch.sigmoid(self.width(feat))
+        wd = wd * torch.where(role == 1, 20.0, 1.0) * torch.where(role == 2, -1.0, 1.0)
+        lo, hi = c - wd, c + wd
+        if self.stats is not None:
+            with torch.no_grad():
+                self.stats["inverted"] += int((lo > hi).sum())
+                self.stats["active"] += int(((prev < lo) | (prev > hi)).logical_and(lo <= hi).sum())
+                self.stats["inactive"] += int(((prev >= lo) & (prev <= hi)).sum())
+        if self.impl == "module":
+            return self.clamp(prev, lo, hi)
+        if self.slope == 0:
+            return F.clamp(prev, lo, hi, inverted_output=self.mode)
+        return F.leaky_clamp(prev, lo, hi, clamped_slope=self.slope, inverted_output=self.mode)
+
+
 class World:
     pass
 
@@ -169,9 +219,25 @@ def build_world(case):
     elif fm == "mo_prev":
         mo_net = torch.nn.Sequential(torch.nn.Linear(1 + H, 2), torch.nn.Tanh(), torch.nn.Linear(2, 1)).to(f64)
         inputs, F = ["log_moneyness", ModuleOutput(mo_net, ["time_to_maturity", "prev_hedge"])], 2
+    elif fm == "mo_free_prev":
+        # parameter-free user module over (time_to_maturity, prev_hedge): a recurrent path with nothing to train in it
+        mo_free = ParamFree()
+        inputs, F = ["log_moneyness", ModuleOutput(mo_free, ["time_to_maturity", "prev_hedge"])], 2
+    elif fm == "mo_ww":
+        # pfhedge's own parameter-free recurrent module as a feature (needs one hedging instrument and costs > 0
+        # for a band of positive width)
+        from pfhedge.nn import WhalleyWilmott
+        ww = WhalleyWilmott(deriv)
+        inputs, F = ["log_moneyness", ModuleOutput(ww, ww.inputs())], 2
     else:
         raise KeyError(fm)
-    if case["model"] == "mlp":
+    if case["model"].startswith("band:"):
+        if fm != "prev":
+            raise HarnessError("C14: band models read (log_moneyness, time_to_maturity, prev_hedge)")
+        _, impl, mode, slope = case["model"].split(":")
+        model = BandModel(H, impl, mode, float(slope), T).to(f64)
+        w.band_stats = model.stats = {"inverted": 0, "active": 0, "inactive": 0}
+    elif case["model"] == "mlp":
         model = torch.nn.Sequential(torch.nn.Linear(F, 3), torch.nn.Tanh(), torch.nn.Linear(3, H)).to(f64)
     else:
         model = torch.nn.Linear(F, H).to(f64)
@@ -197,7 +263,15 @@ def loss_value(w):
 
 
 def stepwise_expected(fm):
-    return fm in ("step", "prev", "mo_prev")
+    return fm in ("step", "prev", "mo_prev", "mo_free_prev", "mo_ww")
+
+
+def admissible(case):
+    if case["fm"] == "mo_ww" and (case["H"] != 1 or not case["cost"] > 0):
+        return False
+    if case["model"].startswith("band:") and case["fm"] != "prev":
+        return False
+    return True
 
 
 def tolerances(case, g_scale, fmax, level):
@@ -238,6 +312,11 @@ def grad_fd(ctx, block):
                           observed=[bool(loss.requires_grad), str(loss.grad_fn)], expected="graph", block=mini)
             ctx.tick(1)
             continue
+        if getattr(w, "band_stats", None) is not None:
+            w.model.stats = None        # counted on this one evaluation only
+            ctx.add("band_cells_clamp_active", w.band_stats["active"])
+            ctx.add("band_cells_clamp_inactive", w.band_stats["inactive"])
+            ctx.add("band_cells_inverted", w.band_stats["inverted"])
         tensors = [p for _, p in w.params]
         grads = torch.autograd.grad(loss, tensors, allow_unused=True)
         g_ad = []
@@ -413,7 +492,8 @@ def _cases(product, wseed, extra=None):
         c["wseed"] = wseed
         if extra is not None:
             c["extra"] = extra
-        out.append(c)
+        if admissible(c):
+            out.append(c)
     return out
 
 
@@ -439,7 +519,7 @@ def run(ctx):
     ctx.alphabet("feature_mode", list(FMODES))
     ctx.alphabet("cost", [0.0, 0.01])
     ctx.alphabet("H", [1, 2])
-    ctx.alphabet("model", list(MODELS))
+    ctx.alphabet("model", list(MODELS) + list(BANDS))
     extra = ctx.extra_symbol("spot", [0.7, 1.1, 1.25, 1.4])
     if ctx.quick:
         ctx.alphabet("path_sets", {k: PATH_SETS[k] for k in ("A3T4", "A2T5")})
@@ -449,7 +529,9 @@ def run(ctx):
         # Q2: the linear model on the second path set (costs on)
         q2 = _cases({"criterion": list(CRITERIA), "fm": list(FMODES), "cost": [0.01], "H": [1, 2], "model": ["linear"],
                      "paths": ["A2T5"]}, wseed)
-        q3 = []
+        # Q3: trainable no-transaction bands through Clamp / LeakyClamp modules and the functional forms
+        q3 = _cases({"criterion": ["erm", "es", "mse"], "fm": ["prev"], "cost": [0.01], "H": [1, 2], "model": list(BANDS),
+                     "paths": ["A2T5"]}, wseed)
         for chunk in _chunks(q1 + q2 + q3, 16):
             ctx.run("grad_fd", {"cases": chunk})
         ng = _cases({"criterion": list(CRITERIA), "fm": ["vec", "prev", "mo_vec"], "cost": [0.01], "H": [1, 2],
@@ -464,12 +546,18 @@ def run(ctx):
             for ws in (wseed, wseed + 1000):     # two generic parameter points per configuration
                 cs = _cases({"criterion": crits, "fm": list(FMODES), "cost": [0.0, 0.01], "H": [1, 2],
                              "model": list(MODELS), "paths": [ps]}, ws, extra=extra if ps == "A4T3" else None)
+                cs += _cases({"criterion": crits, "fm": ["prev"], "cost": [0.0, 0.01], "H": [1, 2],
+                              "model": list(BANDS), "paths": [ps]}, ws, extra=extra if ps == "A4T3" else None)
                 blocks += [{"cases": c} for c in _chunks(cs, 30)]
         ctx.run_parallel("grad_fd", blocks, workers=min(_workers(), len(blocks)))
         ng = _cases({"criterion": crits, "fm": list(FMODES), "cost": [0.0, 0.01], "H": [1, 2],
                      "model": list(MODELS), "paths": ["A3T4", "A2T6"]}, wseed)
         ngb = [{"cases": c} for c in _chunks(ng, 90)]
         ctx.run_parallel("no_graph", ngb, workers=min(_workers(), len(ngb)))
+    for key in ("band_cells_clamp_active", "band_cells_clamp_inactive", "band_cells_inverted"):
+        if not ctx.counters.get(key, 0):
+            ctx.violation("C14.harness", "band_models_vacuous", f"no (path, step, instrument) cell with {key}: the band models do not exercise the clamp",
+                          observed=0, expected="> 0", block={"cases": []}, family="grad_fd")
     n_s = ctx.counters.get("smooth_coordinates", 0)
     n_k = ctx.counters.get("nonsmooth_coordinates", 0)
     n_u = ctx.counters.get("nonsmooth_undecided_coordinates", 0)
